@@ -110,6 +110,7 @@ func defineOpt(g *getoptions.GetOpt, o *OptSpec, b *Built) interface{} {
 	case KBool:
 		if o.UseVar {
 			p := new(bool)
+			*p = !o.DefBool // stale content of the caller's variable
 			g.BoolVar(p, o.Name, o.DefBool, fns...)
 			return p
 		}
@@ -117,6 +118,7 @@ func defineOpt(g *getoptions.GetOpt, o *OptSpec, b *Built) interface{} {
 	case KIncrement:
 		if o.UseVar {
 			p := new(int)
+			*p = 987654 // stale content of the caller's variable
 			g.IncrementVar(p, o.Name, o.DefInt, fns...)
 			return p
 		}
@@ -124,6 +126,7 @@ func defineOpt(g *getoptions.GetOpt, o *OptSpec, b *Built) interface{} {
 	case KString:
 		if o.UseVar {
 			p := new(string)
+			*p = "stale-before-definition"
 			g.StringVar(p, o.Name, o.DefStr, fns...)
 			return p
 		}
@@ -131,6 +134,7 @@ func defineOpt(g *getoptions.GetOpt, o *OptSpec, b *Built) interface{} {
 	case KInt:
 		if o.UseVar {
 			p := new(int)
+			*p = 987654 // stale content of the caller's variable
 			g.IntVar(p, o.Name, o.DefInt, fns...)
 			return p
 		}
@@ -138,6 +142,7 @@ func defineOpt(g *getoptions.GetOpt, o *OptSpec, b *Built) interface{} {
 	case KFloat:
 		if o.UseVar {
 			p := new(float64)
+			*p = 9876.5 // stale content of the caller's variable
 			g.Float64Var(p, o.Name, o.DefFloat, fns...)
 			return p
 		}
@@ -145,6 +150,7 @@ func defineOpt(g *getoptions.GetOpt, o *OptSpec, b *Built) interface{} {
 	case KStringOpt:
 		if o.UseVar {
 			p := new(string)
+			*p = "stale-before-definition"
 			g.StringVarOptional(p, o.Name, o.DefStr, fns...)
 			return p
 		}
@@ -152,6 +158,7 @@ func defineOpt(g *getoptions.GetOpt, o *OptSpec, b *Built) interface{} {
 	case KIntOpt:
 		if o.UseVar {
 			p := new(int)
+			*p = 987654 // stale content of the caller's variable
 			g.IntVarOptional(p, o.Name, o.DefInt, fns...)
 			return p
 		}
@@ -159,6 +166,7 @@ func defineOpt(g *getoptions.GetOpt, o *OptSpec, b *Built) interface{} {
 	case KFloatOpt:
 		if o.UseVar {
 			p := new(float64)
+			*p = 9876.5 // stale content of the caller's variable
 			g.Float64VarOptional(p, o.Name, o.DefFloat, fns...)
 			return p
 		}
